@@ -34,7 +34,7 @@ func TestC17(t *testing.T) {
 			"Add/Delete input/output sequences on the dependency database vs a map model. distinct = declaration-sequence hash; non-trivial = at least one registration was rejected and at " +
 			"least one later registration was accepted")
 		c.Assume("expectations are three-valued: must-reject only what the statement names (second exclusive holder, exclusive/shared mix, duplicate input keys), must-accept when valid under every rule, otherwise the implementation's answer is taken")
-		c.Require("registrations_accepted", "registrations_rejected", "must_reject_cases", "must_accept_cases", "graph_comparisons", "notification_probes", "rejected_then_event_delivered", "db_ops")
+		c.Require("registrations_accepted", "registrations_rejected", "must_reject_cases", "must_accept_cases", "graph_comparisons", "notification_probes", "rejected_then_event_delivered", "db_ops", "update_inputs_calls", "update_inputs_rejected", "update_inputs_resubmitted")
 
 		n := c.N(500, 50000)
 
@@ -57,7 +57,306 @@ func TestC17(t *testing.T) {
 		}
 
 		wg.Wait()
+
+		// dynamic input updates: histories of UpdateInputs calls (valid, conflicting, re-submitted) on running controllers
+		for k := 0; k < c.N(150, 15000); k++ {
+			wg.Add(1)
+			sem <- struct{}{}
+
+			go func() {
+				defer wg.Done()
+				defer func() { <-sem }()
+
+				rng := rand.New(rand.NewPCG(uint64(c.Seed), uint64(13_000_000+k)))
+				synctest.Test(t, func(*testing.T) { updateInputsHistory(c, rng, k) })
+			}()
+		}
+
+		wg.Wait()
 	})
+}
+
+// updateInputsHistory: two plain controllers, each with a permanent by-id "control" input through which the harness wakes it; on a wake
+// the controller submits the input set the harness has prepared through UpdateInputs. Sets are valid (must be accepted), contain
+// conflicting inputs of the same namespace/type/id (must be rejected), or re-submit exactly the last accepted set (often right after a
+// rejected call). After every ACCEPTED call the exported graph lists exactly that set for the controller; at the end one write per key
+// of the universe must wake exactly the controllers whose accepted set matches it.
+func updateInputsHistory(c *vk.C, rng *rand.Rand, k int) {
+	ctlKind := rtp.Kind{NS: "ctl", Type: res.TypeD}
+	names := []string{"U0", "U1"}
+
+	type request struct {
+		set  []controller.Input
+		done bool
+		err  error
+	}
+
+	var (
+		mu      sync.Mutex
+		pending = map[string]*request{}
+	)
+
+	control := func(name string) controller.Input {
+		return controller.Input{Namespace: ctlKind.NS, Type: ctlKind.Type, ID: optional.Some(name), Kind: controller.InputWeak}
+	}
+
+	cfg := rtp.Cfg{MaxDelay: rng.IntN(2)}
+
+	for _, name := range names {
+		cfg.Ctrls = append(cfg.Ctrls, rtp.CtrlCfg{Name: name, Inputs: []controller.Input{control(name)}, LateAt: -1,
+			Script: func(_ context.Context, r controller.Runtime, _ int) {
+				mu.Lock()
+				req := pending[name]
+				mu.Unlock()
+
+				if req == nil || req.done {
+					return
+				}
+
+				err := r.UpdateInputs(req.set)
+
+				mu.Lock()
+				req.err, req.done = err, true
+				mu.Unlock()
+			}})
+	}
+
+	w, err := rtp.NewWorld(rng, cfg)
+	if err != nil {
+		c.Violation("world-setup-failed", err.Error())
+
+		return
+	}
+
+	ctx, cancel := context.WithCancel(context.Background())
+
+	defer func() {
+		cancel()
+		w.WaitRun()
+		synctest.Wait()
+	}()
+
+	w.Run(ctx)
+	rtp.Quiesce(time.Minute)
+
+	var trace []string
+
+	fail := func(sig string, detail map[string]any) {
+		detail["mode"], detail["scenario"], detail["sequence"] = "update-inputs", k, trace
+		c.Violation(sig, detail)
+	}
+
+	poke := func(name string) {
+		key := gp.Key{NS: ctlKind.NS, Type: ctlKind.Type, ID: name}
+		op := rtp.WUpdate
+
+		if w.Px.Shadow(key) == nil {
+			op = rtp.WCreate
+		}
+
+		_ = w.Write(ctx, op, key, "")
+		rtp.Quiesce(time.Minute)
+	}
+
+	show := func(set []controller.Input) string {
+		var b strings.Builder
+
+		for _, i := range set {
+			fmt.Fprintf(&b, "%s/%s/%s:k%d ", i.Namespace, short(i.Type), i.ID.ValueOr("*"), i.Kind)
+		}
+
+		return b.String()
+	}
+
+	accepted := map[string][]controller.Input{}
+	for _, name := range names {
+		accepted[name] = []controller.Input{control(name)}
+	}
+
+	lastRejected := map[string]bool{}
+	kinds := []controller.InputKind{controller.InputWeak, controller.InputStrong, controller.InputDestroyReady}
+
+	steps := 6 + rng.IntN(8)
+
+	for step := 0; step < steps+len(names); step++ {
+		name := names[rng.IntN(len(names))]
+		set := []controller.Input{control(name)}
+		class := "valid"
+
+		// a rejected UpdateInputs may leave the controller's inputs half-updated (the statement promises "no effect" for rejected
+		// registrations only); the next accepted call must repair that, so every history ends with an accepted call per controller
+		closing := step >= steps
+		if closing {
+			name = names[step-steps]
+
+			if !lastRejected[name] {
+				continue
+			}
+		}
+
+		switch {
+		case closing || (lastRejected[name] && rng.IntN(2) == 0) || rng.IntN(5) == 0:
+			set, class = slices.Clone(accepted[name]), "resubmit-last-accepted"
+		default:
+			used := map[string]bool{}
+
+			for j := rng.IntN(4); j > 0; j-- {
+				kd := rtp.Kinds[rng.IntN(len(rtp.Kinds))]
+				in := controller.Input{Namespace: kd.NS, Type: kd.Type, Kind: kinds[rng.IntN(len(kinds))]}
+
+				if rng.IntN(2) == 0 {
+					in.ID = optional.Some(rtp.IDs[rng.IntN(len(rtp.IDs))])
+				}
+
+				key := fmt.Sprintf("%s/%s/%s", in.Namespace, in.Type, in.ID.ValueOr("*"))
+				if used[key] {
+					continue
+				}
+
+				used[key] = true
+				set = append(set, in)
+			}
+
+			if len(set) > 1 && rng.IntN(3) == 0 {
+				// conflicting inputs of one controller: the same namespace/type/id twice (another kind, or the very same input)
+				dup := set[1+rng.IntN(len(set)-1)]
+				dup.Kind = kinds[rng.IntN(len(kinds))]
+				set = append(set, dup)
+				class = "conflicting"
+			}
+		}
+
+		rng.Shuffle(len(set), func(i, j int) { set[i], set[j] = set[j], set[i] })
+
+		req := &request{set: set}
+
+		mu.Lock()
+		pending[name] = req
+		mu.Unlock()
+
+		poke(name)
+
+		mu.Lock()
+		done, uerr := req.done, req.err
+		mu.Unlock()
+
+		trace = append(trace, fmt.Sprintf("%s UpdateInputs(%s) [%s] -> %v", name, show(set), class, uerr))
+		c.Count("update_inputs_calls", 1)
+
+		if !done {
+			fail("controller-not-woken-by-control-input", map[string]any{"controller": name})
+
+			return
+		}
+
+		switch {
+		case class == "conflicting" && uerr == nil:
+			fail("conflicting-inputs-accepted", map[string]any{"controller": name, "set": show(set)})
+
+			return
+		case class != "conflicting" && uerr != nil:
+			fail("valid-input-update-rejected", map[string]any{"controller": name, "set": show(set), "class": class, "err": uerr.Error()})
+
+			return
+		}
+
+		lastRejected[name] = uerr != nil
+		if uerr != nil {
+			c.Count("update_inputs_rejected", 1)
+
+			continue
+		}
+
+		if class == "resubmit-last-accepted" {
+			c.Count("update_inputs_resubmitted", 1)
+		}
+
+		accepted[name] = set
+
+		g, gerr := w.RT.GetDependencyGraph()
+		if gerr != nil {
+			fail("graph-export-failed", map[string]any{"err": gerr.Error()})
+
+			return
+		}
+
+		var got, want []string
+
+		for _, e := range graphEdges(g) {
+			if strings.HasPrefix(e, name+" <- ") {
+				got = append(got, e)
+			}
+		}
+
+		for _, in := range set {
+			want = append(want, fmt.Sprintf("%s <- %s/%s/%s kind%d", name, in.Namespace, in.Type, in.ID.ValueOrZero(), in.Kind))
+		}
+
+		sort.Strings(want)
+		c.Count("graph_comparisons", 1)
+
+		if !slices.Equal(got, want) {
+			fail("graph-differs-from-accepted-set", map[string]any{"controller": name, "graph": got, "model": want})
+
+			return
+		}
+	}
+
+	// who is woken by a write to each key of the universe?
+	for _, kd := range rtp.Kinds {
+		for _, id := range rtp.IDs {
+			key := gp.Key{NS: kd.NS, Type: kd.Type, ID: id}
+			before := len(w.Wakes())
+			op := rtp.WCreate
+
+			if w.Px.Shadow(key) != nil {
+				op = rtp.WUpdate
+			}
+
+			_ = w.Write(ctx, op, key, "")
+			rtp.Quiesce(time.Minute)
+
+			woke := map[string]bool{}
+			for _, wk := range w.Wakes()[before:] {
+				woke[wk.Probe] = true
+			}
+
+			c.Count("notification_probes", 1)
+
+			for _, name := range names {
+				must, may := false, false
+
+				for _, in := range accepted[name] {
+					if in.Namespace != kd.NS || in.Type != kd.Type || (in.ID.IsPresent() && in.ID.ValueOrZero() != id) {
+						continue
+					}
+
+					if in.Kind == controller.InputDestroyReady {
+						may = true
+					} else {
+						must = true
+					}
+				}
+
+				switch {
+				case must && !woke[name]:
+					fail("notification-not-delivered", map[string]any{"controller": name, "inputs": show(accepted[name]), "write": key.String(), "woke": woke})
+
+					return
+				case !must && !may && woke[name]:
+					fail("notification-to-unrelated-controller", map[string]any{"controller": name, "inputs": show(accepted[name]), "write": key.String(), "woke": woke})
+
+					return
+				}
+			}
+		}
+	}
+
+	if w.RunReturned.Load() {
+		fail("runtime-stopped", map[string]any{"err": fmt.Sprint(w.RunErr)})
+	}
+
+	c.Case(vk.Hash("ui", k, trace), true)
 }
 
 type decl struct {
